@@ -53,6 +53,18 @@
                                        and the CompletionCodeError of a refused Reserve is what the helper ends
                                        with, nothing is called after it.  `reserve_plan_empty_is_old_model`: with
                                        an empty plan this IS the environment of the theorems above
+  * chunk_bounded_no_answer / clear_bounded_no_answer / send_bounded_no_answer
+                                     — BOTH forms of "timeout" (Model/RetryNoAnswer.lean: alphabet `LetterX` = an answer
+                                       of the alphabet above, C3h included, or NO ANSWER - the callable `send_fn` /
+                                       `clear_fn` / `reserve_fn` / `interface.send_and_receive` raises IpmiTimeoutError;
+                                       same loops, environment `EnvX`, reserve outcomes planned too): the request
+                                       bounds of chunk_bounded / clear_bounded / send_bounded for every script over
+                                       that alphabet, every reserve plan and every budget
+  * no_answer_propagates_chunk / _clear / _send
+                                     — an unanswered call (request, clear, transfer or Reserve) ends the run with
+                                       IpmiTimeoutError and is the last call the helper made: nothing is repeated
+                                       behind it, the counter is not touched (seeded change C13g: a second decrement
+                                       behind the exception steps over `retry == 0`)
   * source_variant                   — the variants read from today's source ARE the intended ones (SDR reads,
                                        send_message, the two SEL loops): a regression stops the build here
 
@@ -87,6 +99,7 @@
 -/
 import PyIpmi.Lemmas.Retry
 import PyIpmi.Lemmas.RetryReserve
+import PyIpmi.Lemmas.RetryNoAnswer
 import PyIpmi.Lemmas.SdrXferFresh
 import PyIpmi.Lemmas.SelScript
 import PyIpmi.Gen.Loops11
@@ -396,6 +409,51 @@ example : (getSdrData K xconsts Variant.intended (traced scriptX) .repo
       (⟨⟨[.completed], .resCancelled⟩, 0, [recP]⟩, []) 1 none).1.2.length = 10 := by decide
 
 end sdr
+
+/-! ### both forms of "timeout": the callable may also give NO ANSWER (it raises IpmiTimeoutError) -/
+
+section NoAnswer
+open PyIpmi.Model.RetryNA
+
+/-- get_sdr_chunk_helper, every script over the alphabet with "no answer", every reserve plan, every budget:
+at most 2·(b−1) calls, at most b−1 of them requests. -/
+theorem chunk_bounded_no_answer (b res : Nat) (s : ScriptX) (rp : List LetterX) :
+    (runChunkX K b res s rp).1.trace.length ≤ 2 * (b - 1) ∧
+    (runChunkX K b res s rp).1.trace.countP EvX.isChunk ≤ b - 1 :=
+  ⟨(runChunkX_spec K b res s rp).1, (runChunkX_spec K b res s rp).2.1⟩
+
+/-- clear_repository_helper: at most 4·(b−1)+1 calls, at most 2·(b−1) of them clear requests. -/
+theorem clear_bounded_no_answer (b : Nat) (reservation : Option Nat) (s : ScriptX) (rp : List LetterX) :
+    (runClearX K b reservation s rp).1.trace.length ≤ 4 * (b - 1) + 1 ∧
+    (runClearX K b reservation s rp).1.trace.countP EvX.isClear ≤ 2 * (b - 1) :=
+  ⟨(runClearX_spec K b reservation s rp).1, (runClearX_spec K b reservation s rp).2.1⟩
+
+/-- Ipmi.send_message (either variant): at most b transfers. -/
+theorem send_bounded_no_answer (v : SendVariant) (b : Nat) (s : ScriptX) :
+    (runSendX K v b s).1.trace.length ≤ b :=
+  (runSendX_spec K v b s).1
+
+/-- a request or a renewal of get_sdr_chunk_helper that got no answer ends the helper with IpmiTimeoutError and
+is the last call it made -/
+theorem no_answer_propagates_chunk (b res : Nat) (s : ScriptX) (rp : List LetterX) (ev : EvX)
+    (hm : ev ∈ (runChunkX K b res s rp).1.trace) (hna : ev.isNA = true) :
+    (runChunkX K b res s rp).2 = .timeoutError ∧ (runChunkX K b res s rp).1.trace.getLast? = some ev :=
+  (runChunkX_spec K b res s rp).2.2 ev hm hna
+
+/-- the same for clear_repository_helper: its own first Reserve, a clear request or a renewal in either phase -/
+theorem no_answer_propagates_clear (b : Nat) (reservation : Option Nat) (s : ScriptX) (rp : List LetterX) (ev : EvX)
+    (hm : ev ∈ (runClearX K b reservation s rp).1.trace) (hna : ev.isNA = true) :
+    (runClearX K b reservation s rp).2 = .timeoutError ∧
+    (runClearX K b reservation s rp).1.trace.getLast? = some ev :=
+  (runClearX_spec K b reservation s rp).2.2 ev hm hna
+
+/-- the same for Ipmi.send_message, as shipped and intended: a transfer without answer is not repeated -/
+theorem no_answer_propagates_send (v : SendVariant) (b : Nat) (s : ScriptX) (ev : EvX)
+    (hm : ev ∈ (runSendX K v b s).1.trace) (hna : ev.isNA = true) :
+    (runSendX K v b s).2 = .timeoutError ∧ (runSendX K v b s).1.trace.getLast? = some ev :=
+  (runSendX_spec K v b s).2 ev hm hna
+
+end NoAnswer
 
 /-! ### reserve_fn can fail: node busy / timeout / any other error on the Reserve request itself -/
 
